@@ -21,7 +21,8 @@ After the repairs 048b490, 1a1b62e, 9de9983, 8fa2a67, 34967fc the clauses hold w
          filters — unconditional), `C14_3_on_outer`, `C14_3_on_mentions_only`
 * T14.4  `C14_4_values_from_using`, `C14_4_last_wins`, `C14_4_unprefixed`, `C14_4_foreign_prefix`,
          `C14_4_own_prefix` (alias prefix in ANY case), `C14_4_partition_size_removed`
-* T14.5  `C14_5_sound`, `C14_5_complete`, `C14_5_neutralised`  — witnesses: model-first join, `>` mapped
+* T14.5  `C14_5_sound`, `C14_5_complete`, `C14_5_neutralised`, `C14_5_swap` (`model JOIN table ON …`: the model's
+         columns_map comes from that ON, 651e1d3), `C14_rewrite_keeps_table` (fcfe472) — witness: `>` mapped
 * T14.1  `C14_1` (GLOBAL: in every plan the modelled planner emits, the apply steps — also those inside
          MapReduceSteps — are, up to order, exactly the model operands, one each (`C14_1_nodup`), and the input of
          the apply step of operand `i` is built, by fetch / sub-select / apply / join steps, from exactly the
@@ -70,6 +71,13 @@ def C14_full : Prop :=
     -- ON comparisons between a column of model `i` and another column -> columns_map, neutralised
     ∧ (∀ on op q1 n1 q2 n2, E.bin op (.col q1 n1) (.col q2 n2) ∈ nodes on → tableFor ops q1 = some i →
         n1 ∈ keys (colMap ops i on) ∧ neut (mapped ops i) (.bin op (.col q1 n1) (.col q2 n2)) = zeroEq op)
+    -- the columns_map of model `i` is built from its join's ON — for `model JOIN table` from that Join's ON, which
+    -- the JoinStep then sees neutralised
+    ∧ ((predictorArgs ops i (some w) (some u)).2.2.2 = (effOn ops i).map (colMap ops i) ∧
+       (isSwap ops = true → effOn ops 0 = (ops.getD 1 default).on ∧
+          onAfter ops 1 = (ops.getD 1 default).on.map (neut (mapped ops 0))))
+    -- identifier rewriting keeps the table an identifier denotes
+    ∧ (∀ q, lookupFrom ops q 0 = some j → lookupFrom ops (shortName ops j) 0 = some j)
 
 /-! ## T14.2 — which comparisons become model arguments -/
 
@@ -383,12 +391,16 @@ def opsSwap : List Operand :=
     { kind := .tab, parts := ["int1", "t1"], alias := some ["t"], jtype := "JOIN",
       on := some (.bin "=" (.col ["m"] "a") (.col ["t"] "a")), target := none } ]
 
-/-- `FROM model m JOIN table t ON m.a = t.a`: the ON belongs to the table operand; the model gets no columns_map -/
-theorem C14_witness_model_first :
-    (predictorArgs opsSwap 0 none none).2.2.2 = none ∧
-    mapped opsSwap 0 (.bin "=" (.col ["m"] "a") (.col ["t"] "a")) = true ∧
-    onAfter opsSwap 1 = some (.bin "=" (.col ["m"] "a") (.col ["t"] "a")) := by
-  decide
+/-- **651e1d3**: in `model JOIN table ON …` the model's columns_map is built from that Join's ON and the JoinStep
+sees the mapped comparisons neutralised -/
+theorem C14_5_swap (ops : List Operand) (w : Option E) (u : Option (List (String × String))) (hs : isSwap ops = true) :
+    (predictorArgs ops 0 w u).2.2.2 = (ops.getD 1 default).on.map (colMap ops 0) ∧
+    onAfter ops 1 = (ops.getD 1 default).on.map (neut (mapped ops 0)) := by
+  simp [predictorArgs, effOn, onAfter, hs]
+
+/-- **fcfe472**: the qualifier an identifier is rewritten to still denotes the same operand in `tables_idx` -/
+theorem C14_rewrite_keeps_table (ops : List Operand) (q : List String) (i : Nat) (h : lookupFrom ops q 0 = some i) :
+    lookupFrom ops (shortName ops i) 0 = some i := shortName_resolves ops q i h
 
 /-- a non-equality `m.d > t.d` in the model's ON is mapped too, and "neutralised" to `0 > 0` -/
 theorem C14_witness_on_gt :
@@ -397,12 +409,11 @@ theorem C14_witness_on_gt :
   decide
 
 /-- **C14 (partial)**: every clause of `C14_full` holds for all inputs.  Not covered: the global form of T14.1
-(count / dataflow of apply steps: correspondence + probe), and the two open deviations that live outside
-these clauses — the model-first join (`C14_witness_model_first`) and name clashes after qualifier rewriting
-(KF-C14-10: the model's `tableFor` IS the library's resolution). -/
+(now `C14_1`).  After 651e1d3 / fcfe472 the model-first join and the qualifier rewriting are clauses of the
+statement too. -/
 theorem C14_partial : C14_full := by
   intro ops w i j tgt u
-  refine ⟨C14_where_clauses ops w i j tgt u, ?_, ?_⟩
+  refine ⟨C14_where_clauses ops w i j tgt u, ?_, ?_, ⟨rfl, fun hs => ?_⟩, fun q h => shortName_resolves ops q j h⟩
   · intro on st f hf
     obtain ⟨h1, h2⟩ := C14_3_on ops j on st f hf
     refine ⟨h1, ?_⟩
@@ -412,6 +423,7 @@ theorem C14_partial : C14_full := by
   · intro on op q1 n1 q2 n2 hn ht
     refine ⟨(C14_5_complete ops i on op q1 n1 q2 n2 hn).1 ht, ?_⟩
     exact (C14_5_neutralised ops i on).2 op _ _ (by simp [mapped, ht])
+  · simp [effOn, onAfter, hs]
 
 /-! ## the repaired behaviours, pinned on the former witnesses (a regression breaks these `decide`s) -/
 
@@ -449,6 +461,20 @@ example : rightOrFull "RIGHT JOIN" = true ∧ rightOrFull "full outer join" = tr
     rightOrFull "JOIN" = false := by decide
 example : (onScan opsR 1 (topConjuncts (.bin "and" (.bin "=" (.col ["s"] "y") (.const "2"))
     (.un "not" (.bin "=" (.col ["s"] "x") (.const "1")))))).2.1 = [.bin "=" (.col ["s"] "y") (.const "2")] := by decide
+
+/-- 651e1d3: `FROM model m JOIN table t ON m.a = t.a` -/
+example : (predictorArgs opsSwap 0 none none).2.2.2 = some [("a", .col ["t"] "a")] ∧
+    onAfter opsSwap 1 = some (zeroEq "=") := by decide
+
+def opsClash : List Operand :=
+  [ { kind := .tab, parts := ["int1", "t1"], alias := none, jtype := "", on := none, target := none },
+    { kind := .tab, parts := ["int2", "tab4"], alias := some ["t1"], jtype := "JOIN", on := none, target := none },
+    { kind := .mod, parts := ["mindsdb", "pred"], alias := some ["m"], jtype := "JOIN", on := none, target := none } ]
+
+/-- fcfe472: with `int1.t1 … JOIN int2.tab4 AS t1`, `int1.t1.c` keeps its full qualifier and stays with operand 0 -/
+example : rewrite opsClash (.col ["int1", "t1"] "c") = some (.col ["int1", "t1"] "c") ∧
+    tableFor opsClash ["int1", "t1"] = some 0 ∧ tableFor opsClash ["t1"] = some 1 ∧
+    conditionsOf opsClash 1 (.bin "=" (.col ["int1", "t1"] "c") (.const "1")) = [] := by decide
 
 /-- the predict target is deliberately not an argument: `m.y = 4` stays an outer filter -/
 theorem C14_target_stays :
